@@ -187,14 +187,24 @@ def _check_arity(func: str, node: ast.Call, arity: int) -> None:
         raise NotImplementedError(msg)
 
 
+def _unary_node(typ: int, arg: ast.expr) -> libsbml.ASTNode:
+    sbml_node = libsbml.ASTNode(typ)
+    if typ == libsbml.AST_FUNCTION_LOG:
+        # MathML log takes the base as its first child,
+        # libsbml silently drops the math of a log node without it
+        base = libsbml.ASTNode(libsbml.AST_INTEGER)
+        base.setValue(10)
+        sbml_node.addChild(base)
+    sbml_node.addChild(_convert_node(arg))
+    return sbml_node
+
+
 def _convert_direct_call(node: ast.Call) -> libsbml.ASTNode:
     func = cast(ast.Name, node.func).id
 
     if (typ := UNARY.get(func)) is not None:
         _check_arity(func, node, 1)
-        sbml_node = libsbml.ASTNode(typ)
-        sbml_node.addChild(_convert_node(node.args[0]))
-        return sbml_node
+        return _unary_node(typ, node.args[0])
     if (typ := BINARY.get(func)) is not None:
         _check_arity(func, node, 2)
         sbml_node = libsbml.ASTNode(typ)
@@ -220,9 +230,7 @@ def _convert_library_call(node: ast.Call) -> libsbml.ASTNode:
     if parent in ("math", "np", "numpy"):
         if (typ := UNARY.get(attr)) is not None:
             _check_arity(attr, node, 1)
-            sbml_node = libsbml.ASTNode(typ)
-            sbml_node.addChild(_convert_node(node.args[0]))
-            return sbml_node
+            return _unary_node(typ, node.args[0])
         if (typ := BINARY.get(attr)) is not None:
             _check_arity(attr, node, 2)
             sbml_node = libsbml.ASTNode(typ)
